@@ -312,11 +312,13 @@ CLAIMS["C08"] = dict(
          "the policy's own Ord, f64 costs) on ~18 whole policies (thorough: ~60; both signature contexts): every returned "
          "miniscript lifts (evaluated) to the input policy's truth table, is B / signed / non-malleable, passes "
          "validate(&Ctx::SANE) and re-parses from its text; the evaluated outputs coincide with the real compiler's on "
-         "the policies compared by hand.",
+         "the policies compared by hand; likewise compile_tr (internal-key extraction, per-leaf compilation, Huffman tree), "
+         "compile_tr_native, compile_tr_private_experimental and compile_to_descriptor (bare / sh / wsh / sh-wsh / tr) "
+         "evaluated on ~12 policies (thorough ~17): the descriptor is of the requested kind, lifts to the policy's truth "
+         "table (the unspendable key never available), every leaf passes validate(&Tap::SANE), the text re-parses.",
     note="Trusted: spec/semantics.py + spec/policy_sem.py; C05/C06 (types are sound), C07 (lift), C09 (limits used by "
-         "check_local_validity); rustc THIR; evaluator. Cost optimality, ExtData attached by casts (C09 decides the "
-         "rules), taproot key extraction / leaf enumeration / Huffman tree are not decided; the end-to-end rule is a "
-         "bounded family.",
+         "check_local_validity); rustc THIR; evaluator. Cost optimality and ExtData attached by casts (C09 decides the "
+         "rules) are not decided; the end-to-end rules are bounded families.",
     tech=STATIC + "one-level symbolic evaluation of the dynamic programme with opaque sub-results + truth-table "
                   "equivalence of lifted templates; decision tables of the gates; rule-pairing table of the casts",
     engine="symx+tablex")
